@@ -58,20 +58,14 @@ def run(chk, repo, tier):
             raise AnalysisError(f'filter terminal {t} is not an alternation of literals')
         for a in alts:
             surface[a] = t
-    # dispatch chain: tp == 'OP_X' -> operator / operator_type assignments
+    # dispatch on the token type -> operator / operator_type, as an if-chain or as a table lookup
+    from sa.tables import const_dispatch
     dispatch = {}
-    for n in ast.walk(fi.node):
-        if isinstance(n, ast.If) and isinstance(n.test, ast.Compare) and unparse(n.test.left) == 'tp' \
-                and isinstance(n.test.comparators[0], ast.Constant):
-            tok = n.test.comparators[0].value
-            op = tpv = None
-            for s_ in n.body:
-                if isinstance(s_, ast.Assign) and isinstance(s_.targets[0], ast.Name):
-                    if s_.targets[0].id == 'operator' and isinstance(s_.value, ast.Constant):
-                        op = s_.value.value
-                    if s_.targets[0].id == 'operator_type' and isinstance(s_.value, ast.Name):
-                        tpv = s_.value.id
-            dispatch[tok] = (op, tpv)
+    for tok, vars_ in const_dispatch(fi.node, dm).items():
+        if not (isinstance(tok, str) and tok.startswith('OP_')):
+            continue
+        op, tpv = vars_.get('operator'), vars_.get('operator_type')
+        dispatch[tok] = (op.value if isinstance(op, ast.Constant) else None, tpv.id if isinstance(tpv, ast.Name) else None)
     for t in sorted(op_tokens):
         chk.instance(R1, f'token {t}: dispatch {dispatch.get(t)}')
         if t not in dispatch or None in dispatch[t]:
@@ -107,8 +101,9 @@ def run(chk, repo, tier):
     for n in ast.walk(outer[0]):
         if isinstance(n, ast.If):
             for s_ in n.body:
-                if isinstance(s_, ast.Assign) and isinstance(s_.targets[0], ast.Name):
-                    cond_vars.add(s_.targets[0].id)
+                if isinstance(s_, ast.Assign):
+                    cond_vars |= {x.id for x in ast.walk(s_.targets[0]) if isinstance(x, ast.Name)
+                                  and isinstance(x.ctx, ast.Store)}
     cond_vars &= {'operator', 'operator_type', 'column', 'expr'}
     for v in sorted(cond_vars):
         direct = [cfg.ids(s_)[0] for s_ in outer[0].body if isinstance(s_, ast.Assign)
